@@ -166,15 +166,24 @@ SETMAP_MNV = ["memory orders", "back-off timing", "allocators and functor bodies
               "client-side spin hints report libcds loops that wait without calling a back-off (liveness only)"]
 
 
-def setmap_check(res, thorough, prop, client, threads=3, ops=4, mixed=(3000, 40000), enum_cases=(30, 60), spec="mapc", **kw):
-    base_cov(res, SETMAP_MNV + ["payloads written by update functors are not atomic with the operation (documented): the concurrent specification Spec.mapConc keeps the set of payloads that may still be observed per key; keys, presence and return flags are strict"],
-             partial=["linearizability as a theorem about an algorithm model: not proved; decided on explored schedules only"])
-    lean_step(res, "CdsVerif.Props." + prop, thorough)
+def setmap_check(res, thorough, prop, client, threads=3, ops=4, mixed=(3000, 40000), enum_cases=(30, 60), spec="mapc", modules=(), mnv=(), partial=None, **kw):
+    base_cov(res, SETMAP_MNV + list(mnv) + ["payloads written by update functors are not atomic with the operation (documented): the concurrent specification Spec.mapConc keeps the set of payloads that may still be observed per key; keys, presence and return flags are strict"],
+             partial=partial or ["linearizability as a theorem about an algorithm model: not proved; decided on explored schedules only"])
+    lean_step(res, ["CdsVerif.Props." + prop] + list(modules), thorough)
     tie_H(res, client, hist_runs(thorough, threads, ops, enum_cases, mixed, extra=["--spec", spec]), **kw)
 
 
 def c13(res, thorough):
-    setmap_check(res, thorough, "C13", "list")
+    setmap_check(res, thorough, "C13", "list", modules=["CdsVerif.Props.C13Michael"],
+                 mnv=["MichaelList: Lean machine (Algo/Michael: search with helping, link_node with its plain stores, unlink_node with the single ignored unlink attempt) proved linearizable to Spec.map for all schedules, thread counts and keys, "
+                      "hindsight cases (failed find / erase / insert) included, with chain-sorted / marked-frozen / erase-once theorems; garbage-collected heap (no node reuse: what C01/C02 provide), HP stores not modelled, weak CAS never fails spuriously; "
+                      "tied by trace conformance (variant imichael_hp_named: every load / store / CAS of the head and of every node's next word, values and mark bits included, and every result)",
+                      "LazyList, IterableList, the KV forms and the RCU / nogc specialisations: no algorithm model; decided by histories judged against Spec.map"],
+                 partial=["linearizability of LazyList / IterableList and of the RCU and nogc specialisations as theorems about algorithm models: not proved; decided on explored schedules only"])
+    # tie A: the Lean machine whose linearizability is proved (Algo/Michael) must accept the real traces step by step
+    tie_A(res, "list", "michael", [{"args": ["--mode", "mixed", "--threads", "4", "--ops", "5", "--variant", "imichael_hp_named"], "cases": 12000 if thorough else 1500},
+                                   {"args": ["--mode", "mixed", "--threads", "3", "--ops", "6", "--variant", "imichael_hp_named"], "cases": 8000 if thorough else 800},
+                                   {"args": ["--mode", "enum2" if thorough else "enum1", "--threads", "2", "--ops", "3", "--variant", "imichael_hp_named"], "cases": 10 if thorough else 4}])
     # IterableList keeps emptied nodes and re-uses them: position re-validation (find_prev) only matters after an
     # insert/erase pair by other threads while an inserter is delayed - longer programs, 4 threads, iterable variants only
     for v in ("iterable_hp", "iterable_dhp", "iiterable_hp", "iterable_kv_hp"):
@@ -182,7 +191,11 @@ def c13(res, thorough):
 
 
 def c14(res, thorough):
-    setmap_check(res, thorough, "C14", "hashset", mixed=(4000, 50000), enum_cases=(55, 110))
+    setmap_check(res, thorough, "C14", "hashset", mixed=(4000, 50000), enum_cases=(55, 110),
+                 mnv=["locality (Base/Locality, Herlihy-Wing Theorem 1 proved for the framework's definition) and C14_table_of_linearizable_buckets: a table whose operations are routed by ANY bucket function to independent buckets is a linearizable map "
+                      "as soon as every bucket's sub-history is; with the MichaelList machine of C13 this covers MichaelHashSet over MichaelList at the level of histories (the product machine itself is not written); "
+                      "SplitListSet (one shared list, dummy nodes, growing bucket table) and FeldmanHashSet (multi-level array) have no algorithm model",
+                      "the hashset client calls the *_with( key, less ) overloads in a quarter of the cases and gives split lists a colliding hash (key >> 1) in half of them"])
 
 
 def c15(res, thorough):
@@ -353,7 +366,8 @@ def c17(res, thorough):
     n = 6000 if thorough else 700
     first = 0
     rounds = 0
-    corpus = [("2", "655", "654")]          # kept witness of the known CuckooSet::resize finding: runs first, on every run
+    # kept witness of the known CuckooSet::resize finding (explicit configuration and operations, independent of the generator): runs first, on every run
+    corpus = [tuple("explicit cuckoo_list 2 3 4 2 0 10 i3 e2 i1 i6 e0 e6 i7 e3 i8 i3 i3 e0 e7 e2 i9 e1 i2 i4 i5 i5 i1 i8 i1 e4 i8 i8 i3 i3 i1 i5 i4 i1 e8 i0 i8 e0 i1 e9 i1 i7 i6 i7 i9 i4 e9 i2 i8 i9 e1 i9 i0 e8 i5 e1 i8 i1".split())]
     while first < n and rounds < 40:
         rounds += 1
         if corpus:
